@@ -16,7 +16,8 @@
 (* agree (invariant Agree; a disagreement is a lead, to be confirmed on the *)
 (* real code) and exports every case as JSON for the Go harness (hv_deps),  *)
 (* which builds the real charts and runs the real code.  DepsObs.tla judges *)
-(* the observations with the property-shaped operators only.                *)
+(* the observations with the property-shaped operators (the code-shaped     *)
+(* ones only narrow the excuse of a listed known finding).                  *)
 (*                                                                          *)
 (* Value trees.  A tree is a SET OF LEAVES [p |-> path, v |-> token]:       *)
 (*   path  = sequence of keys,                                              *)
@@ -235,27 +236,37 @@ ExpG(case, P) ==
 ExpOwn(case, P) == Without(Destined(case, P), {"global"}) \cup
                    (IF ExpG(case, P) = {} THEN {} ELSE Put(<<"global">>, ExpG(case, P)))
 
-\* the parent's effective values as far as they matter for dependency d: what the parent
-\* sees, with d's own default values under d's name
-EffFor(case, P, d) == Merge(ExpOwn(case, P), Put(<<IName(d)>>, Defaults(case, d.name)))
+\* the parent's effective values as far as they matter for dependency d: what the parent sees, with
+\* default values of its dependencies under their names.  Which dependencies?  The sentence of C11 does
+\* not say whether a SIBLING that ends up disabled still lends its defaults to the decision (the
+\* decisions are mutually dependent).  Both readings are kept:
+\*   "own"  only d's own defaults count;   "all"  the defaults of every dependency of the parent count.
+\* They differ only when a condition path of d points into a sibling's section and is decided by that
+\* sibling's own default; then either outcome is accepted (stated in the evidence assumptions).
+EffFor(case, P, d, rd) ==
+  LET ds == IF rd = "own" THEN {d} ELSE DepsOf(case, ChartAt(case, P))
+  IN Merge(ExpOwn(case, P), UNION {Put(<<IName(x)>>, Defaults(case, x.name)) : x \in ds})
 
 ExpTags(case) == Sub(Destined(case, <<>>), <<"tags">>)
 
 \* "the first condition path that resolves to a boolean in the parent's effective values decides,
 \*  otherwise it is disabled exactly when some of its tags are false and none is true"
-ExpEnabled(case, P, d) ==
-  LET eff   == EffFor(case, P, d)
+ExpEnabled(case, P, d, rd) ==
+  LET eff   == EffFor(case, P, d, rd)
       bools == {i \in DOMAIN d.cond : ValAt(eff, d.cond[i]) \in {"true", "false"}}
       tg    == ExpTags(case)
   IN IF bools # {} THEN ValAt(eff, d.cond[MinOfSet(bools)]) = "true"
      ELSE ~( (\E i \in DOMAIN d.tags : ValAt(tg, <<d.tags[i]>>) = "false")
              /\ ~(\E i \in DOMAIN d.tags : ValAt(tg, <<d.tags[i]>>) = "true") )
 
-RECURSIVE ExpBelow(_, _, _)
-ExpBelow(case, P, ch) ==
-  UNION {{P \o <<IName(d)>>} \cup ExpBelow(case, P \o <<IName(d)>>, d.name) :
-           d \in {x \in DepsOf(case, ch) : ExpEnabled(case, P, x)}}
-ExpE(case) == {<<>>} \cup ExpBelow(case, <<>>, RootChart)
+RECURSIVE ExpBelow(_, _, _, _)
+ExpBelow(case, P, ch, rd) ==
+  UNION {{P \o <<IName(d)>>} \cup ExpBelow(case, P \o <<IName(d)>>, d.name, rd) :
+           d \in {x \in DepsOf(case, ch) : ExpEnabled(case, P, x, rd)}}
+ExpEr(case, rd) == {<<>>} \cup ExpBelow(case, <<>>, RootChart, rd)
+ExpE(case) == ExpEr(case, "own")
+\* the sets of enabled instances the property admits (one set unless the case is ambiguous as above)
+ExpEs(case) == {ExpEr(case, "own"), ExpEr(case, "all")}
 
 EnabledKids(case, E, P) == {Last(Q) : Q \in {R \in E : Len(R) = Len(P) + 1 /\ IsPrefix(P, R)}}
 
@@ -275,7 +286,7 @@ ScopeOK(case, E, P, seen) == ScopeOwnOK(case, E, P, seen) /\ ScopeGlobOK(case, P
 (* disagreements that are understood (leads confirmed on the real code are      *)
 (* listed in KNOWN_FINDINGS.jsonl; DepsObs.tla restates them on observations).  *)
 
-AgreeEnabled(case) == EnabledCode(case) = ExpE(case)
+AgreeEnabled(case) == EnabledCode(case) \in ExpEs(case)
 AgreeScope(case)   == LET E == EnabledCode(case) IN \A P \in E : ScopeOK(case, E, P, CodeScope(case, P))
 Agree(case) == AgreeEnabled(case) /\ AgreeScope(case)
 
@@ -372,7 +383,7 @@ DepsExport ==
   THEN LET c == Case  E == ExpE(c)  EC == EnabledCode(c) IN
        JsonSerialize("gen/" \o CaseId \o ".json",
          [id |-> CaseId, shape |-> Shape.name, case |-> CaseJ(c),
-          exp |-> [enabled |-> SeqOf(E), enabledCode |-> SeqOf(EC),
+          exp |-> [enabled |-> SeqOf(E), enabledAll |-> SeqOf(ExpEr(c, "all")), enabledCode |-> SeqOf(EC),
                    agree |-> Agree(c), lead |-> KnownLead(c),
                    scope |-> SeqOf({[P |-> P, leaves |-> SeqOf(CodeScope(c, P))] : P \in EC})]])
   ELSE TRUE
